@@ -338,6 +338,25 @@ pub fn run() {
     // repository programs
     let repo: Vec<String> = corpus::repo_programs().into_iter().map(|p| p.1).collect();
     run_family("repository-programs", &repo, &mut fam, &mut all);
+    run_family("long-texts", &corpus::long_programs(), &mut fam, &mut all);
+    // label sets: every ordered triple of a name set chosen to sort differently under different
+    // collations (underscore vs letters vs digits, upper vs lower case), all defined, all referenced
+    {
+        let names = ["a", "B", "_", "a_", "aB", "A0", "a1", "_a", "__", "Z", "z_", "Za", "z0", "wait_end", "waitx", "WAIT"];
+        let mut progs = vec![];
+        for x in names {
+            for y in names {
+                for z in names {
+                    let set = [x, y, z];
+                    if set.iter().enumerate().any(|(i, a)| set.iter().skip(i + 1).any(|b| a.eq_ignore_ascii_case(b))) {
+                        continue;
+                    }
+                    progs.push(format!("{}{}:\n NOP\n{}:\n LD R0, {}\n.EQU {} 0x55\n LD R1, ({})\n JR {}\n CALL {}\n ST ({}), R0\n", HDR, x, y, z.to_lowercase(), z, x.to_uppercase(), y, x, z));
+                }
+            }
+        }
+        run_family("label-name-sets", &progs, &mut fam, &mut all);
+    }
     for (k, (n, cases)) in &all.bad {
         for (l, w) in cases.iter().take(3) {
             if k.starts_with("machinery/") {
